@@ -29,6 +29,9 @@ BOX = 12.0
 
 # ------------------------------------------------------------------ rendering
 
+RN = {"A": "A", "B": "SOL", "W": "W"}     # abstract residue name -> name in the files (SOL: readers tend to special-case it)
+
+
 def type_names(mols):
     names, seen = [], {}
     for ml in mols:
@@ -50,7 +53,7 @@ def top_text(mols, ignore_names=()):
             first = k + 1
             for a in range(res["na"]):
                 k += 1
-                lines.append("%d P %d %s a%d %d 0.0 36" % (k, ri, res["rn"], a + 1, k))
+                lines.append("%d P %d %s a%d %d 0.0 36" % (k, ri, RN.get(res["rn"], res["rn"]), a + 1, k))
                 if a > 0:
                     bonds.append((k - 1, k, 0.30))
             if last is not None:
@@ -70,13 +73,19 @@ def top_text(mols, ignore_names=()):
     return "\n".join(lines) + "\n"
 
 
+SPLIT = {"on": False}     # variant: consecutive rows sit at opposite box faces, so multi-atom residues are split across the periodic boundary
+
+
 def row_xyz(i):
-    # distinct, well separated (0.5 nm), inside the box, exactly representable with 3 decimals
+    # distinct, well separated, inside the box, exactly representable with 3 decimals
+    if SPLIT["on"]:
+        return (0.25 if i % 2 else BOX - 0.25, 1.0 + 0.4 * i, 2.0 + 0.001 * i)
     return (0.5 + 0.5 * (i % 20), 1.0 + 0.75 * (i // 20), 2.0 + 0.001 * i)
 
 
 def gro_text(K):
-    rows = ["%5d%-5s%5s%5d%8.3f%8.3f%8.3f" % ((i, "X", "x", i) + row_xyz(i)) for i in range(1, K + 1)]
+    # the residue-name column of the coordinate file uses SOL as well (a water-like name must not be dropped by the reader)
+    rows = ["%5d%-5s%5s%5d%8.3f%8.3f%8.3f" % ((i, "SOL" if i % 2 else "X", "x", i) + row_xyz(i)) for i in range(1, K + 1)]
     return "rows\n%5d\n%s%s%10.5f%10.5f%10.5f\n" % (K, "\n".join(rows), "\n" if rows else "", BOX, BOX, BOX)
 
 
@@ -90,6 +99,7 @@ def row_of(pos):
 # ------------------------------------------------------------------ (a) consumption
 
 def _consume_one(case):
+    SPLIT["on"] = bool(case.get("split"))
     from polyply.src.topology import Topology
     with tempfile.TemporaryDirectory(prefix="verif_c04_", dir="/var/tmp") as wd:
         wd = Path(wd)
@@ -101,7 +111,7 @@ def _consume_one(case):
         except Exception as exc:
             return ("machinery", "cannot read rendered topology: %s: %s" % (type(exc).__name__, exc))
         try:
-            topology.add_positions_from_file(wd / "in.gro", skip_res=list(case["skip"]), resolution="mol" if case["res"] == "mol" else "meta_mol")
+            topology.add_positions_from_file(wd / "in.gro", skip_res=[RN.get(x, x) for x in case["skip"]], resolution="mol" if case["res"] == "mol" else "meta_mol")
         except IOError as exc:
             return ("ok", None) if case["err"] else ("diff", "IOError raised but the file is sufficient: %s" % exc)
         except Exception as exc:
@@ -158,6 +168,7 @@ def read_gro(path):
 
 def _e2e_one(arg):
     case, sd, ignore_types = arg
+    SPLIT["on"] = bool(case.get("split"))
     from polyply import gen_coords
     rng = random.Random(sd)
     budget = {"n": rng.randint(0, 4)}
@@ -181,7 +192,7 @@ def _e2e_one(arg):
             kw = {"coordpath": wd / "in.gro"} if case["res"] == "mol" else {"coordpath_meta": wd / "in.gro"}
             with w.recording(chooser=chooser) as rec:
                 try:
-                    gen_coords(toppath=wd / "s.top", outpath=wd / "out.gro", name="c04", build_res=list(case["skip"]), ignore=ignore,
+                    gen_coords(toppath=wd / "s.top", outpath=wd / "out.gro", name="c04", build_res=[RN.get(x, x) for x in case["skip"]], ignore=ignore,
                                max_force=1e12, **kw)
                     from vermouth.file_writer import DeferredFileWriter
                     DeferredFileWriter().write()
@@ -201,6 +212,7 @@ def _e2e_one(arg):
 
 def compare_e2e(case, out):
     """output atoms against the specification's row assignment"""
+    SPLIT["on"] = bool(case.get("split"))
     k = 0
     atoms = out["atoms"]
     flat = [(mi, ri, res) for mi, ml in enumerate(case["mols"]) for ri, res in enumerate(ml)]
@@ -290,15 +302,19 @@ def run(tier):
     cases = gc.cases()
     ck.require(len(cases) > 500, "too few GenCoords cases exported: %d" % len(cases))
     ck.stage("S->I (a): coordinate consumption on %d systems" % len(cases))
-    res = c.pmap(_consume_one, cases, chunksize=16)
-    for cs, (kind, msg) in zip(cases, res):
+    split_cases = [dict(cs, split=True) for cs in cases if cs["res"] == "mol" and any(r["na"] > 1 for ml in cs["mols"] for r in ml)]
+    if tier == "quick":
+        split_cases = rng.sample(split_cases, min(len(split_cases), 300))
+    allc = cases + split_cases
+    res = c.pmap(_consume_one, allc, chunksize=16)
+    for cs, (kind, msg) in zip(allc, res):
         if kind == "machinery":
             raise c.MachineryError(msg)
         if kind == "skip":
             ck.extra["skipped_empty_file"] = ck.extra.get("skipped_empty_file", 0) + 1
             continue
         ck.replayed += 1
-        ck.count(json.dumps([cs["mols"], cs["K"], sorted(cs["skip"]), cs["res"]], sort_keys=True))
+        ck.count(json.dumps([cs["mols"], cs["K"], sorted(cs["skip"]), cs["res"], bool(cs.get("split"))], sort_keys=True))
         if kind == "diff":
             ck.violation({"kind": "consume", "case": cs}, what="add_positions_from_file on %s: %s" % (
                 json.dumps({"molecules": cs["mols"], "rows": cs["K"], "res": sorted(cs["skip"]), "level": cs["res"]}), msg))
@@ -306,6 +322,7 @@ def run(tier):
     ck.stage("S->I (b): end to end through gen_coords")
     n = 28 if tier == "quick" else 220
     picked = [(cs, sd * 1000 + i, []) for i, cs in enumerate(select_e2e(cases, rng, n))]
+    picked += [(dict(cs, split=True), sd * 1000 + 300 + i, []) for i, cs in enumerate(select_e2e([x for x in cases if x["res"] == "mol"], rng, max(6, n // 4)))]
     picked += [(cs, sd * 1000 + 500 + i, ign) for i, (cs, ign) in enumerate(ignore_cases())]
     outs = c.pmap(_e2e_one, picked)
     traces, nov = [], 0
